@@ -269,8 +269,11 @@ def _work_lemma(task):
             return out
         out["n_total"] = len(vcs)
         hints = (getattr(mod, "LEMMA_HINTS", None) or {}).get(name)
+        checked = set()
         for k, (sub, pc, goal) in enumerate(vcs):
-            if pc and solve.is_sat(pc, 1500) == "unsat":
+            key = tuple(t.get_id() for t in pc)
+            if pc and key not in checked and len(checked) < 6 and (checked.add(key) or True) \
+                    and solve.is_sat(pc, 700) == "unsat":
                 out["error"] = "vacuity guard: hypotheses of lemma %s.%s are contradictory" % (name, sub)
                 return out
             r = solve.check_vc(pc, goal, tier, hints=hints)
